@@ -71,6 +71,11 @@ def push_authorization(request_args, service, **kwargs):
         _req = JWTSecuredAuthorizationRequest(request_uri=_resp["request_uri"])
         for param in request_args.required_parameters():
             _req[param] = request_args.get(param)
+        # prompt and nonce are left where the OP looks for them when offline_access
+        # or an ID token is asked for
+        for param in ["prompt", "nonce"]:
+            if param in request_args:
+                _req[param] = request_args[param]
         request_args = _req
     else:
         raise ConnectionError(
